@@ -169,7 +169,7 @@ def tokenize(s):
         if k == 'name':
             # names may continue with non-ASCII alphanumerics
             j = m.end()
-            while j < n and (s[j].isalnum() or s[j] == '_'):
+            while j < n and (s[j].isalnum() or s[j] == '_' or (ord(s[j]) > 127 and not s[j].isspace())):
                 j += 1
             toks.append(('name', s[i:j]))
             i = j
